@@ -200,6 +200,12 @@ def run(ctx):
     except Exception as e:   # the wire registry is shared with C02
         ctx.broke("translator tr_wire aborted", repr(e))
     ctx.proofs()
+    # extension: VariablePayload / the generators / vp_compile / payload_dataclass translated from the AST (gen/G20_vp.v),
+    # theorems in props/C20x.v
+    from tools.checks import c20_vp_gen
+    xtext = c20_vp_gen.translate(ctx)
+    if xtext is not None:
+        ctx.proofs(part="C20x")
     ctx.coverage["trusted_base"] = [
         "Coq 8.16.1 kernel; no axioms",
         "model M20_vp of VariablePayload.__init__/to_pack_list/from_unpack_list and of the three code generators; the generator "
@@ -570,6 +576,7 @@ def run(ctx):
         ctx.broke("correspondence: type_map differs", "%s -> impl %s" % tcases[i])
     ctx.coverage["traces_validated_against_impl"] += len(tcases) - len(mism)
     ctx.extra["definitions"] = len(defs)
+    c20_vp_gen.stage(ctx, xtext)
     ctx.coverage["rule"] = ("every shipped VariablePayload definition + generated definitions (1..8 formats over all registered formats, bits "
                             "anywhere, nested payloads, lists, hooks on byte fields, defaults of every literal kind on a suffix); per "
                             "definition generated instances; distinct by (definition, arguments)")
@@ -582,7 +589,10 @@ def replay(path):
     for v in js.get("violations", []):
         print(v["key"], "::", v["what"])
         c = v["case"]
-        if c.get("kind") == "default":
+        if c.get("kind") in ("dataclass-default-factory", "int-instance", "dataclass-defaults", "dataclass"):
+            from tools.checks import c20_vp_gen
+            rc |= c20_vp_gen.replay_case(v)
+        elif c.get("kind") == "default":
             for n, rv in c["defaults"].items():
                 val = eval(rv)
                 src = lp._compile_init(c["names"], {n: val}).co_filename
